@@ -425,7 +425,7 @@ class ShortTimeFourierTransformFrameComputer(LinearFilterBankFrameComputer):
                     seg_len = (
                         min(
                             start_idx + trunc_len - consumed,
-                            half_len - 2 + half_len % 2,
+                            half_len - 2 + self._dft_size % 2,
                         )
                         - start_idx
                     )
@@ -433,13 +433,13 @@ class ShortTimeFourierTransformFrameComputer(LinearFilterBankFrameComputer):
                     if seg_len:
                         val += self._nonlin_op(
                             half_spect[
-                                (-2 + (half_len % 2) - start_idx) : (
-                                    -2 + (half_len % 2) - start_idx - seg_len
+                                (-2 + (self._dft_size % 2) - start_idx) : (
+                                    -2 + (self._dft_size % 2) - start_idx - seg_len
                                 ) : -1
                             ].conj()
                             * truncated_filt[consumed : consumed + seg_len]
                         )
-                    start_idx -= half_len - 2 + half_len % 2
+                    start_idx -= half_len - 2 + self._dft_size % 2
                 else:
                     seg_len = min(start_idx + trunc_len - consumed, half_len)
                     seg_len -= start_idx
